@@ -243,10 +243,15 @@ def rand_scenario(
         "abort_origin": rng.choice(["direct", "direct", "nested"]),  # an AbortRetryError raised by the operation itself, or by a policy nested in it
         "exc_chain": rng.choice([None] * 8 + ["open_context", "timeout_cause", "open_cause", "abort_context", "scripted_cause", "scripted_cause"]),
         "rely_on_defaults": rng.random() < 0.08,
+        "ctx_block_shared": rng.random() < 0.4,  # context-manager entries: one block around all calls of the scenario, or one per call
     })
 
 
 def _finish(sc):
+    if sc.get("ctx_block_shared"):
+        # the arguments are bound once, when the block is entered: no call inside it passes fewer
+        for c in sc["calls"]:
+            c.pop("drop_call_kw", None)
     if sc.pop("rely_on_defaults", False) and not sc["cfg"].get("no_retry"):
         rely_on_defaults(sc)
     return sc
